@@ -15,7 +15,7 @@ import tempfile
 import zipfile
 
 from . import store as S
-from .data import decode_value, encode_value, flavour_of, value_equal
+from .data import dhash, decode_value, encode_value, flavour_of, value_equal
 from .model import MNode
 from .ops import EXCLUDED, OK, SKIP, Plan, UidGen, handler, tree_of
 from .world import Slot, Violation, World, real_children
@@ -25,7 +25,7 @@ COMPRESSION = {"STORED": zipfile.ZIP_STORED, "DEFLATED": zipfile.ZIP_DEFLATED,
 
 CUSTOM_KEY_MAP = {"data_id": "i", "str": "s", "kind": "k", "type": "t", "name": "n",
                   "age": "a", "guid": "g"}
-CUSTOM_VALUE_MAP = {"type": ["int", "tup", "person", "obj", "wrap"]}
+CUSTOM_VALUE_MAP = {"type": ["int", "tup", "person", "obj", "wrap", "udict"]}
 
 IDENTITY_HASHED = ("w", "o", "f")
 
@@ -115,6 +115,8 @@ def _pool_key_for(obj):
         if obj.is_dir:
             return "g:" + obj.name[1:]
         return "f:" + obj.name[1:-4]
+    if f == "u":
+        return f"u:{obj['u']}"
     return None
 
 
@@ -211,7 +213,7 @@ def check_written_document(w: World, text: str, mt, *, exp_key_map, exp_value_ma
             if cand[1].data is m.data or value_equal(cand[1].data, m.data):
                 first = cand
                 break
-        custom = m.did != hash(m.data)
+        custom = m.did != dhash(m.data)
         if first is None:
             first_of_data.setdefault(m.did, []).append((pos, m))
         # required only in the unambiguous case (DESIGN.md section 4 C12): default id,
@@ -264,7 +266,7 @@ def _has_equal_valued_distinct_identity_objects(mt) -> bool:
     clone groups' means after a restart is not defined."""
     seen = {}
     for m in mt.root.iter_pre():
-        if flavour_of(m.data) in IDENTITY_HASHED and m.did == hash(m.data):
+        if flavour_of(m.data) in IDENTITY_HASHED and m.did == dhash(m.data):
             key = repr(sorted(encode_value(m.data).items()))
             o = seen.setdefault(key, m.data)
             if o is not m.data:
@@ -275,7 +277,7 @@ def _has_equal_valued_distinct_identity_objects(mt) -> bool:
 def _has_identity_kind_conflict(mt) -> bool:
     groups = {}
     for m in mt.root.iter_pre():
-        if flavour_of(m.data) in IDENTITY_HASHED and m.did == hash(m.data):
+        if flavour_of(m.data) in IDENTITY_HASHED and m.did == dhash(m.data):
             groups.setdefault(m.did, set()).add(m.kind)
     return any(len(k) > 1 for k in groups.values())
 
@@ -296,7 +298,7 @@ def plan_restart(w: World, op: dict) -> Plan:
     class_style = flavour in ("sub", "tsub", "fs")
     # loading without a mapper is documented for plain string entries only
     # (typed: {"str", "kind"}); dict entries need a mapper by documentation
-    plain_entries = all(isinstance(m.data, str) and m.did == hash(m.data)
+    plain_entries = all(isinstance(m.data, str) and m.did == dhash(m.data)
                         for m in mt.root.iter_pre())
     no_mapper = bool(op.get("no_mapper")) and plain_entries and not class_style
     has_fs_data = any(flavour_of(m.data) == "f" for m in mt.root.iter_pre())
@@ -472,7 +474,7 @@ def _adopt_loaded(w: World, si: int, loaded, mt, op, owner, trigger, old_groups,
                 if getattr(rc, "kind", None) != mc.kind:
                     fail("kind", f"kind {getattr(rc, 'kind', None)!r} at {path}/"
                                  f"{w.dkey(mc.data)}, expected {mc.kind!r}")
-            value_derived = (mc.did != hash(mc.data)) or \
+            value_derived = (mc.did != dhash(mc.data)) or \
                 flavour_of(mc.data) not in IDENTITY_HASHED
             if value_derived and rc.data_id != mc.did:
                 fail("data_id", f"data_id at {path}/{w.dkey(mc.data)} changed "
@@ -497,7 +499,7 @@ def _adopt_loaded(w: World, si: int, loaded, mt, op, owner, trigger, old_groups,
         mc.meta = None  # node metadata is not part of what C05/C14 promise
         mc.nid = None  # neither are node ids
         mc.data = rc.data
-        mc.explicit = rc.data_id != hash(rc.data)
+        mc.explicit = rc.data_id != dhash(rc.data)
         mc.did = rc.data_id
         if plain_result:
             mc.kind = None
@@ -550,7 +552,7 @@ def _plan_restart_dict(w: World, op, si, mt, rt) -> Plan:
                     fail("dict-shape", "entry is not a dict")
                 if it.get("data") != str(m.data):
                     fail("dict-data", f"data {it.get('data')!r} for node {w.dkey(m.data)}")
-                custom = m.did != hash(m.data)
+                custom = m.did != dhash(m.data)
                 if custom:
                     if it.get("data_id") != m.did:
                         fail("dict-data_id", f"custom data_id of {w.dkey(m.data)} missing")
